@@ -30,6 +30,11 @@ def check(run):
     prog = run.prog
     cls = prog.find_class(CLS)
     run.need(cls is not None, f"anchor class {CLS} vanished")
+    from . import c06
+    c06.depends_on(run, "C18", {"E1"})      # acceptance and slot draws advance the global generator (no state save / restore)
+    c06.depends_on(run, "C06", {"NOMUT"})   # the imputer only reads what get_data hands out (a row removed there leaves a free slot)
+    c06.depends_on(run, "C15", {"DEFAULTS"}, only=lambda rule, inst: inst.endswith(".storage"))
+    c06.depends_on(run, "C07", {"COUNT", "PARALLEL"}, only=lambda rule, inst: inst.startswith(CLS))    # every arrival is offered to the reservoir
     init = prog.summarise(cls, "__init__")
     s, ps = update_paths(prog, cls)
     run.analysed_fn(f"{CLS}.__init__")
@@ -154,9 +159,6 @@ def check(run):
     copy_protocol(run, prog, cls)           # a copied / unpickled reservoir keeps its probability, size and contents
     from .common import ctor_wiring
     ctor_wiring(c06.FilterRun(run, {"CTOR"}, {"CTOR": "FORMULA"}), prog, cls, "CTOR")   # size / probability as configured, per object
-    c06.depends_on(run, "C18", {"E1"})      # acceptance and slot draws advance the global generator (no state save / restore)
-    c06.depends_on(run, "C06", {"NOMUT"})   # the imputer only reads what get_data hands out (a row removed there leaves a free slot)
-    c06.depends_on(run, "C15", {"DEFAULTS"}, only=lambda rule, inst: inst.endswith(".storage"))
     # ---- AGREE: TreeStorage relies on p >= 1 ---------------------------------------------------
     ts = prog.find_class("TreeStorage")
     run.need(ts is not None, "anchor class TreeStorage vanished")
